@@ -350,10 +350,11 @@ def check_C06(run):
             c = {"c": "wcaps", "tid": tid, "v": v, "wks": wks, "extra": 2}
             cmds.append(c)
             run.distinct.add((tid, vf.digest(v)))
-    # large values: estimate vs. bytes only (no capacity sweep)
+    # every other value (medium and large): estimate vs. bytes only (no capacity sweep)
     for tid, S, v in stimuli_values(run, types, big=True, nrandom=0):
-        if len(json.dumps(v)) > 3000:
+        if (tid, vf.digest(v)) not in run.distinct:
             cmds.append({"c": "wcaps", "tid": tid, "v": v, "wks": [], "extra": 0})
+            run.distinct.add((tid, vf.digest(v)))
     cmds = with_resets(cmds, 6)
     run.samples = [c for c in cmds if c.get("c") == "wcaps"][:3]
     run_codec(run, 'C06', cmds, mc=MC_WIRE)
@@ -477,6 +478,9 @@ def hostile_cmds(run, types, thorough, for_c02):
             for pos in range(0, nbytes):
                 for hb in (hostile_bytes if pos < 3 or thorough else hostile_bytes[::3]):
                     muts.append(([{"op": "set", "at": pos, "val": hb}], True))
+            for pos in range(0, nbytes):
+                for delta in (1, 255, 2, 254, 3):
+                    muts.append(([{"op": "add", "at": pos, "val": delta}], True))
             # all 256 prefix bytes at the root
             if n % (2 if thorough else 6) == 0:
                 for hb in range(256):
@@ -1151,7 +1155,8 @@ def check_C09(run):
             if not fung["value"][i][j]:
                 continue
             npairs += 1
-            for v in (va if thorough or i == j else va[:8]):
+            sel = va if (thorough or i == j or has_kind(ftypes[a], ("lbuf",)) or has_kind(ftypes[b], ("lbuf",))) else va[:8]
+            for v in sel:
                 if len(json.dumps(v)) > 4000:
                     continue
                 cmds.append({"c": "cross", "a": i, "b": j, "v": v})
